@@ -248,6 +248,21 @@ pub fn record_c11(args: &Args, mut out: Out) -> usize {
             run_event(&image(&zero, &sg, &pi), base_line, &sg, &pi, &mut out);
             run_event(&image(&zero, &[0, 1, 2, 3], &pi), base_line, &[0, 1, 2, 3], &pi, &mut out);
         }
+        // (3) two players holding the very same range of three hands and a third player with another one: all six seatings
+        // (the twins next to each other in either order, and apart)
+        let shared = vec![e(0, 1, 0), e(1, 1, 0), e(2, 1, 1)];
+        let twin = Cfg {
+            flop: [f[0], f[1], f[2]],
+            ranges: vec![shared.clone(), shared.clone(), vec![e(3, 1, 0), e(4, 1, 0)]],
+            from: (0, 1), to: (48, 49), scoped: false,
+        };
+        run_event(&twin, 0, &[0, 1, 2, 3], &id, &mut out);
+        let base_line = out.n;
+        for pi in perms(3) {
+            let sg = all_sigma[rng.usize(all_sigma.len())];
+            run_event(&image(&twin, &[0, 1, 2, 3], &pi), base_line, &[0, 1, 2, 3], &pi, &mut out);
+            run_event(&image(&twin, &sg, &pi), base_line, &sg, &pi, &mut out);
+        }
         let np = 18usize;
         let full = Cfg { flop: [f[0], f[1], f[2]], ranges: (0..np).map(|i| vec![e(i, 1, (i % 2) as u32)]).collect(), from: (0, 1), to: (48, 49), scoped: false };
         let id: Vec<usize> = (0..np).collect();
